@@ -8,6 +8,8 @@ import itertools
 import networkx as nx
 from ..core import Explorer, Verdict, bad
 from ..gen import molecules as M
+from ..gen import grammar as G
+from ..gen import fragtext as FT
 from ..ref import oracles as O
 
 ID = 'C06'
@@ -218,6 +220,26 @@ def plan(tier, seed, for_invariants=False):
         for i in range(0, len(parts), step):
             tasks.append({'space': 'layered-atomistic', 'kind': 'layered', 'bottom': 'mol', 'name': nm,
                           'parts': parts[i:i + step], 'max_levels': 1 if (q and for_invariants) else 2 if q else 3})
+    if not for_invariants:
+        # coarse fragments over the graph grammar: a fragment block reads its coarse fragments without braces
+        for name, B, k in fragment_grammar_spaces(tier):
+            bj = B.to_json()
+            Bk = G.Bound.from_json(bj)
+            Bk.max_tokens = k
+            ex = Explorer(dedup=False)
+            tasks.append({'space': name, 'kind': 'fraggrammar', 'bound': bj, 'root': None, 'k': k})
+            for r in ex.run(G.INIT, lambda s: G.succ(s, Bk), lambda s: len(s[0]) == k):
+                tasks.append({'space': name, 'kind': 'fraggrammar', 'bound': bj, 'root': r, 'k': k})
+        # coarse fragments with one descriptor at every position (after nodes, ring markers, multipliers, closed and
+        # multiplied branches): the neighbouring fragment must be bonded to the node the descriptor was written after
+        FB = fragment_descriptor_bound(tier)
+        bj = FB.to_json()
+        FBk = FT.FBound.from_json(bj)
+        FBk.max_tokens = 3
+        ex = Explorer(dedup=False)
+        tasks.append({'space': 'fragment-descriptor', 'kind': 'fragdescr', 'bound': bj, 'root': None, 'k': 3})
+        for r in ex.run(FT.INIT, lambda s: FT.succ(s, FBk), lambda s: len(s[0]) == 3):
+            tasks.append({'space': 'fragment-descriptor', 'kind': 'fragdescr', 'bound': bj, 'root': r, 'k': 3})
     names = sorted(M.SLICE)
     nm = names[seed % len(names)]
     parts = [p for p in M.partitions(M.SLICE[nm], max_frag=3) if len(p) == 3]
@@ -225,6 +247,134 @@ def plan(tier, seed, for_invariants=False):
         tasks.append({'space': 'seed-slice', 'kind': 'layered', 'bottom': 'slice', 'name': nm, 'parts': parts[i:i + 6],
                       'max_levels': 1})
     return tasks
+
+
+def fragment_grammar_spaces(tier):
+    q = tier == 'quick'
+    return [('fragment-grammar-rings', G.Bound(max_nodes=5 if q else 6, max_depth=2, max_open=2, max_rings=2, bonds=('=',) if q else ('=', '.'),
+                                               ring_styles=('d', 'p', 'pp'), max_bonds=1 if q else 2), 4),
+            ('fragment-grammar-mult', G.Bound(max_nodes=4, max_depth=2, max_open=1, max_rings=1, bonds=('=',),
+                                              ring_styles=('d', 'p'), max_bonds=1, mults=(2,) if q else (2, 3),
+                                              max_mults=1 if q else 2), 4)]
+
+
+def run_fraggrammar(task, R):
+    B = G.Bound.from_json(task['bound'])
+    ex = Explorer(dedup=False)
+    if task['root'] is None:
+        B.max_tokens = task['k'] - 1
+        init = G.INIT
+    else:
+        init = task['root']
+    for st in ex.run(init, lambda s: G.succ(s, B), G.complete):
+        inp = {'kind': 'fraggrammar', 'tokens': st[0]}
+        R.record(inp, evaluate_fraggrammar(inp))
+    R.add_explorer(ex)
+
+
+def evaluate_fraggrammar(inp):
+    """`{[#X]}.{#X=<sentence>}` resolves to the graph the sentence denotes"""
+    from cgsmiles import MoleculeResolver
+    tokens = tuple(tuple(t) for t in inp['tokens'])
+    if any(t[0] == 'm' for t in tokens):
+        if not G.mult_units_ok(G.parse(tokens)):
+            return Verdict(skip=True, outcome='excluded-multiplied-unit-shape')
+        from . import c05
+        if c05.structure(tokens):
+            # the two multiplied-branch shapes recorded as known findings of C05 (C05-K1, C05-K2) are decided there
+            return Verdict(skip=True, outcome='shape-of-a-C05-known-finding')
+        long_toks = G.expand_mult(tokens)
+    else:
+        long_toks = tokens
+    try:
+        nodes, edges = G.denote(long_toks)
+    except G.NotSimple:
+        return Verdict(skip=True, outcome='not-a-simple-graph')
+    body = G.ser(tokens, braces=False)
+    string = '{[#X]}.{#X=%s}' % body
+    nontrivial = len(nodes) >= 2 and any(t[0] in ('b', 'r', '(', 'm') for t in tokens)
+    expected = {'names': [n for n, _ in nodes], 'edges': sorted(edges.items())}
+    try:
+        coarse, fine = MoleculeResolver.from_string(string, last_all_atom=False).resolve()
+    except Exception as e:
+        return bad('fragment-grammar:raises:' + type(e).__name__, expected, {'string': string, 'error': repr(e)[:200]}, nontrivial=nontrivial)
+    got_names = [fine.nodes[n].get('atomname') for n in sorted(fine.nodes)]
+    got_edges = {(min(a, b), max(a, b)): d.get('order') for a, b, d in fine.edges(data=True)}
+    if any(t[0] == 'm' and tokens[i - 1][0] != 'n' for i, t in enumerate(tokens)):
+        # copies of a multiplied branch: node numbering inside a copy is not part of the denotation (as in C05)
+        ref = nx.Graph()
+        for i, (n, _) in enumerate(nodes):
+            ref.add_node(i, atomname=n)
+        for (a, b), o in edges.items():
+            ref.add_edge(a, b, order=o)
+        if not nx.is_isomorphic(ref, fine, node_match=lambda x, y: x['atomname'] == y.get('atomname'),
+                                edge_match=lambda x, y: x['order'] == y.get('order')):
+            return bad('fragment-grammar:graph', expected, {'string': string, 'names': got_names, 'edges': sorted(got_edges.items())},
+                       nontrivial=nontrivial)
+        return Verdict(nontrivial=nontrivial, outcome='fg-iso:%d/%s' % (len(nodes), sorted(edges.values())))
+    if sorted(fine.nodes) != list(range(len(nodes))) or got_names != expected['names']:
+        return bad('fragment-grammar:nodes', expected, {'string': string, 'names': got_names}, nontrivial=nontrivial)
+    if got_edges != edges:
+        return bad('fragment-grammar:edges', expected, {'string': string, 'edges': sorted(got_edges.items())}, nontrivial=nontrivial)
+    if any(d.get('fragname') != 'X' or list(d.get('fragid', [])) != [0] for _, d in fine.nodes(data=True)):
+        return bad('fragment-grammar:labels', expected, {'string': string}, nontrivial=nontrivial)
+    return Verdict(nontrivial=nontrivial, outcome='fg:%d/%s' % (len(nodes), sorted(edges.values())))
+
+
+def fragment_descriptor_bound(tier):
+    q = tier == 'quick'
+    return FT.FBound(atoms=[('[#A]', '[#A]', ''), ('[#B]', '[#B]', '')], bonds=('=',), descs=[('$', '')], dsyms=(None,),
+                     max_atoms=3 if q else 4, max_descs=1, max_depth=1, max_rings=1, ring_styles=('d', 'p'), max_lead=1,
+                     max_annot=0, mults=(2, 3), max_bonds=1, bond_after_open=False)
+
+
+def run_fragdescr(task, R):
+    B = FT.FBound.from_json(task['bound'])
+    ex = Explorer(dedup=False)
+    if task['root'] is None:
+        B.max_tokens = task['k'] - 1
+        init = FT.INIT
+    else:
+        init = task['root']
+    for st in ex.run(init, lambda s: FT.succ(s, B), FT.complete):
+        if sum(1 for t in st[0] if t[0] in ('d', 'ld')) != 1:
+            continue
+        inp = {'kind': 'fragdescr', 'tokens': st[0]}
+        R.record(inp, evaluate_fragdescr(inp))
+    R.add_explorer(ex)
+
+
+def evaluate_fragdescr(inp):
+    """`{[#X][#Y]}.{#X=<coarse text with one [$]>,#Y=[$][#Z]}`: X's nodes are the graph of the clean text (as read by the
+    real reader, which C04/C05 decide) and Z is bonded to the node the descriptor was written after"""
+    from cgsmiles import MoleculeResolver, read_cgsmiles
+    tokens = [tuple(t) for t in inp['tokens']]
+    clean, descs, _ = FT.reference(tokens, {})
+    (owner, _), = descs.items()
+    text = FT.ser(tokens)
+    string = '{[#X][#Y]}.{#X=%s,#Y=[$][#Z]}' % text
+    try:
+        ref = read_cgsmiles('{' + clean + '}')
+    except Exception as e:
+        return Verdict(skip=True, outcome='clean-text-not-readable:' + type(e).__name__)
+    n = len(ref)
+    exp_edges = {(min(a, b), max(a, b)): o for a, b, o in ref.edges(data='order')}
+    exp_edges[(owner, n)] = 1
+    exp_names = [ref.nodes[i]['fragname'] for i in range(n)] + ['Z']
+    nontrivial = n >= 2
+    expected = {'names': exp_names, 'edges': sorted(exp_edges.items())}
+    try:
+        coarse, fine = MoleculeResolver.from_string(string, last_all_atom=False).resolve()
+    except Exception as e:
+        return bad('fragment-descriptor:raises:' + type(e).__name__, expected, {'string': string, 'error': repr(e)[:200]}, nontrivial=nontrivial)
+    got_names = [fine.nodes[k].get('atomname') for k in sorted(fine.nodes)]
+    got_edges = {(min(a, b), max(a, b)): d.get('order') for a, b, d in fine.edges(data=True)}
+    if sorted(fine.nodes) != list(range(n + 1)) or got_names != exp_names:
+        return bad('fragment-descriptor:nodes', expected, {'string': string, 'names': got_names}, nontrivial=nontrivial)
+    if got_edges != exp_edges:
+        return bad('fragment-descriptor:bond-on-wrong-node', expected, {'string': string, 'edges': sorted(got_edges.items())},
+                   nontrivial=nontrivial)
+    return Verdict(nontrivial=nontrivial, outcome='fd:%d/%d/%s' % (n, owner, any(t[0] == 'm' for t in tokens)))
 
 
 def groupings_succ(bottom, max_levels):
@@ -303,6 +453,10 @@ def cases(task, R):
 
 
 def run_task(task, R):
+    if task['kind'] == 'fraggrammar':
+        return run_fraggrammar(task, R)
+    if task['kind'] == 'fragdescr':
+        return run_fragdescr(task, R)
     for inp in cases(task, R):
         R.record(inp, evaluate(inp))
 
@@ -321,6 +475,10 @@ def iso_final(a, b, all_atom):
 
 
 def evaluate(inp):
+    if inp.get('kind') == 'fraggrammar':
+        return evaluate_fraggrammar(inp)
+    if inp.get('kind') == 'fragdescr':
+        return evaluate_fragdescr(inp)
     from cgsmiles import MoleculeResolver
     aa = inp['all_atom']
     nlev = inp['levels']
